@@ -37,6 +37,7 @@ DEPS = {
     "C14": ["alg", "prox", "linop_table", "linop_apply"], "C15": ["lls"],
     "C16": ["alg", "lls", "prox", "linop_table", "linop_apply", "fourier", "wavelet"],
     "C17": ["alg", "util", "block", "fourier"],
+    "C20": ["spokes"],
 }
 
 
